@@ -28,7 +28,9 @@ package negotiation
 //@ ensures suffix: result1 == nil ==> len(result0) <= len(body) && sameArray(result0, body) && offsetOf(result0) + len(result0) == offsetOf(body) + len(body)
 //@ ensures cookie-length-inside: result1 == nil ==> len(body) >= 36 && 35 + int(body[34]) < len(body)
 //@ ensures extensions-after-cookie: result1 == nil ==> 36 + int(body[34]) + int(body[35 + int(body[34])]) <= len(body) - len(result0)
-//@ loop #1: suffix: sameArray(remainder, body) && offsetOf(remainder) + len(remainder) == offsetOf(body) + len(body) && POS() >= 34 && len(body) >= 34
+//@ loop #1: same-array: sameArray(remainder, body)
+//@ loop #1: suffix: offsetOf(remainder) + len(remainder) == offsetOf(body) + len(body)
+//@ loop #1: past-random: POS() >= 34 && len(body) >= 34
 //@ loop #1: at-session-id: idx == 0 ==> POS() == 34
 //@ loop #1: at-cookie: idx == 1 ==> len(body) >= 35 && POS() == 35 + int(body[34])
 //@ loop #1: past-cookie: idx >= 2 ==> len(body) >= 36 && 35 + int(body[34]) < len(body) && POS() >= 36 + int(body[34]) + int(body[35 + int(body[34])])
@@ -37,6 +39,27 @@ package negotiation
 //@ func snapshotClientHello
 //@ ensures snapshot-invariant: result1 == nil ==> wf(result0)
 //@ ensures failed-is-invalid: result1 != nil ==> len(result0.body) == 0
+//@ ensures snapshot-is-a-copy-of-the-body: result1 == nil ==> bytesEq(result0.body, body) && fresh(result0.body)
+//@ end
+
+// The two retained offers (RFC 6347 4.2.1: the second ClientHello is compared with the first): the first
+// recorded offer is the reference and is never replaced by a later one; a successful Record makes the
+// offered snapshot the current one; a rejected or invalid snapshot changes nothing.
+
+//@ func ClientHelloSnapshots.Record
+//@ ensures invalid-is-ignored: len(snapshot.body) == 0 ==> result == nil && sameRef(s.initial, old(s.initial)) && sameRef(s.current, old(s.current))
+//@ ensures first-offer-is-kept: old(len(s.initial.body) != 0) ==> sameRef(s.initial, old(s.initial))
+//@ ensures first-offer-is-recorded: len(snapshot.body) != 0 && old(len(s.initial.body) == 0) ==> result == nil && sameRef(s.initial, snapshot)
+//@ ensures accepted-offer-is-current: len(snapshot.body) != 0 && result == nil ==> sameRef(s.current, snapshot)
+//@ ensures rejected-offer-changes-nothing: result != nil ==> sameRef(s.initial, old(s.initial)) && sameRef(s.current, old(s.current))
+//@ end
+
+//@ func ClientHelloSnapshots.RecordWire
+//@ ensures first-offer-is-kept: old(len(s.initial.body) != 0) ==> sameRef(s.initial, old(s.initial))
+//@ ensures rejected-offer-changes-nothing: result != nil ==> sameRef(s.initial, old(s.initial)) && sameRef(s.current, old(s.current))
+//@ ensures accepted-offer-is-the-wire-body: result == nil ==> len(rawHandshake) >= 12 && bytesEq(s.current.body, rawHandshake[12:])
+//@ ensures accepted-offer-is-well-formed: result == nil ==> wf(s.current) && len(s.initial.body) != 0
+//@ ensures first-offer-is-recorded: result == nil && old(len(s.initial.body) == 0) ==> sameRef(s.initial, s.current)
 //@ end
 
 // The CID / use_srtp extension comparisons are separate steps; this property only needs that
@@ -57,4 +80,52 @@ package negotiation
 //@ ensures same-after-cookie: result == nil && wf(initial) && wf(retry) ==> old(bytesEq(initial.body[CE(initial):initial.extensionOffset], retry.body[CE(retry):retry.extensionOffset]))
 //@ ensures otherwise-identical-extensions-length: result == nil && wf(initial) && wf(retry) ==> len(initial.body) - initial.extensionOffset == len(retry.body) - retry.extensionOffset
 //@ ensures otherwise-identical-extensions: result == nil && wf(initial) && wf(retry) ==> old(bytesEq(initial.body[initial.extensionOffset:], retry.body[retry.extensionOffset:]))
+//@ end
+
+// DTLS 1.3 (RFC 9147 5.1 / RFC 8446 4.1.2, 4.2.2): ClientHello2 is accepted only with both offers present and a
+// HelloRetryRequest that this endpoint validated; the legacy fields before the extension block are
+// byte-identical; a requested cookie is echoed byte for byte (extension_data = length(2) || cookie).
+
+//@ define inb(s) (0 <= s.extensionOffset && s.extensionOffset <= len(s.body))
+
+//@ func validateRetryKeyShare
+//@ noinline
+//@ end
+
+//@ func retryExtensionsMatch
+//@ noinline
+//@ end
+
+//@ func validateRetryCookie
+//@ watch bytes.Equal! Cookie.MarshalData ClientHelloSnapshot.Extension!
+//@ ensures no-cookie-requested: !request.HasCookie ==> result == nil
+//@ ensures cookie-must-be-present: request.HasCookie && result == nil ==> present && err == nil
+//@ ensures cookie-echoed-length: request.HasCookie && result == nil ==> len(cookie.Data) == 2 + len(request.Cookie)
+// [engine limit: bytesEq(cookie.Data[2:], request.Cookie) through append(out, c.Cookie...) and bytes.Equal stays
+//  `unknown` (40 s); stated instead as: the bytes compared are the extension's data and the encoding of the
+//  requested cookie, and the comparison said equal]
+//@ ensures cookie-echoed: request.HasCookie && result == nil ==> called("bytes.Equal!") && retBool("bytes.Equal!", 0) && sameSlice(argBytes("bytes.Equal!", 0), cookie.Data) && sameSlice(argBytes("bytes.Equal!", 1), payload)
+//@ ensures compared-with-the-requested-cookie: called("Cookie.MarshalData") ==> sameSlice(argAs("Cookie.MarshalData", 0, extension13.Cookie{}).Cookie, request.Cookie) && sameSlice(retBytes("Cookie.MarshalData", 0), payload)
+//@ ensures cookie-taken-from-the-retry: called("ClientHelloSnapshot.Extension!") ==> sameRef(argAs("ClientHelloSnapshot.Extension!", 0, ClientHelloSnapshot{}), retry) && argAs("ClientHelloSnapshot.Extension!", 1, extension.Type(0)) == extension.TypeCookie
+//@ ensures cookie-length-prefix: request.HasCookie && result == nil ==> int(cookie.Data[0])*256 + int(cookie.Data[1]) == len(request.Cookie)
+//@ ensures empty-cookie-never-accepted: request.HasCookie && len(request.Cookie) == 0 ==> result != nil
+//@ end
+
+//@ func validateRetryClientHello
+//@ watch validateRetryCookie! validateRetryKeyShare! retryExtensionsMatch!
+//@ ensures legacy-fields-unchanged: result == nil && inb(initial) && inb(retry) ==> old(bytesEq(initial.body[:initial.extensionOffset], retry.body[:retry.extensionOffset]))
+//@ ensures cookie-checked: result == nil ==> called("validateRetryCookie!") && retErr("validateRetryCookie!", 0) == nil
+//@ ensures cookie-checked-on-the-retry: called("validateRetryCookie!") ==> sameRef(argAs("validateRetryCookie!", 0, ClientHelloSnapshot{}), retry) && sameRef(argAs("validateRetryCookie!", 1, RetryRequest{}), request)
+//@ ensures key-share-checked: result == nil ==> called("validateRetryKeyShare!") && retErr("validateRetryKeyShare!", 0) == nil
+//@ ensures key-share-checked-on-the-retry: called("validateRetryKeyShare!") ==> sameRef(argAs("validateRetryKeyShare!", 0, ClientHelloSnapshot{}), retry) && sameRef(argAs("validateRetryKeyShare!", 1, RetryRequest{}), request)
+//@ ensures other-extensions-compared: result == nil ==> called("retryExtensionsMatch!") && retBool("retryExtensionsMatch!", 0)
+//@ ensures extensions-compared-first-against-second: called("retryExtensionsMatch!") ==> sameRef(argAs("retryExtensionsMatch!", 0, ClientHelloSnapshot{}), initial) && sameRef(argAs("retryExtensionsMatch!", 1, ClientHelloSnapshot{}), retry) && sameRef(argAs("retryExtensionsMatch!", 2, RetryRequest{}), request)
+//@ end
+
+//@ func ValidateClientHelloRetry
+//@ watch validateRetryClientHello!
+//@ ensures needs-both-offers: result == nil ==> len(initial.body) != 0 && len(retry.body) != 0
+//@ ensures needs-a-validated-request: result == nil ==> request.valid
+//@ ensures retry-rules-applied: result == nil ==> called("validateRetryClientHello!") && retErr("validateRetryClientHello!", 0) == nil
+//@ ensures retry-rules-applied-to-these-offers: called("validateRetryClientHello!") ==> sameRef(argAs("validateRetryClientHello!", 0, ClientHelloSnapshot{}), initial) && sameRef(argAs("validateRetryClientHello!", 1, ClientHelloSnapshot{}), retry) && sameRef(argAs("validateRetryClientHello!", 2, RetryRequest{}), request)
 //@ end
